@@ -594,6 +594,66 @@ fn big_n(r: &mut Rng) -> usize {
     }
 }
 
+/// Compact partition (Run/RunC16.v `pspec`): a literal list, the formula
+/// p[i] = (c + a * (i / b)) mod k, or runs (part, count).
+#[derive(Clone)]
+enum PSpec {
+    List(Vec<usize>),
+    Stride { c: usize, a: usize, b: usize, k: usize, len: usize },
+    Runs(Vec<(usize, usize)>),
+}
+impl PSpec {
+    fn expand(&self) -> Vec<usize> {
+        match self {
+            PSpec::List(l) => l.clone(),
+            PSpec::Stride { c, a, b, k, len } => (0..*len).map(|i| (c + a * (i / b)) % k).collect(),
+            PSpec::Runs(rs) => rs.iter().flat_map(|(q, n)| std::iter::repeat(*q).take(*n)).collect(),
+        }
+    }
+    fn coq(&self) -> String {
+        match self {
+            PSpec::List(l) => format!("(PList {})", coq_natlist(l.iter().cloned())),
+            PSpec::Stride { c, a, b, k, len } => format!("(PStride {}%N {}%N {}%N {}%N {}%N)", c, a, b, k, len),
+            PSpec::Runs(rs) => format!(
+                "(PRuns [{}]%N)",
+                rs.iter().map(|(q, n)| format!("({},{})", q, n)).collect::<Vec<_>>().join(";")
+            ),
+        }
+    }
+    fn json(&self) -> String {
+        match self {
+            PSpec::List(l) => {
+                let pz: Vec<i64> = l.iter().map(|x| *x as i64).collect();
+                format!("{{\"rle\":{}}}", json_rle(&pz))
+            }
+            PSpec::Stride { c, a, b, k, len } => format!(
+                "{{\"formula\":\"p[i] = ({} + {} * (i / {})) mod {}\",\"len\":{}}}",
+                c, a, b, k, len
+            ),
+            PSpec::Runs(rs) => format!(
+                "{{\"runs_part_count\":[{}]}}",
+                rs.iter().map(|(q, n)| format!("[{},{}]", q, n)).collect::<Vec<_>>().join(",")
+            ),
+        }
+    }
+}
+
+/// many parts on a large graph: beyond 64 and beyond 1024, as a formula
+fn big_partition_many(r: &mut Rng, n: usize) -> (String, PSpec) {
+    match r.below(3) {
+        0 => ("one_part_per_vertex".into(), PSpec::Stride { c: 0, a: 1, b: 1, k: n.max(1), len: n }),
+        1 => {
+            let k = (*r.pick(&[65usize, 129, 1025, 2048])).min(n.max(1));
+            ("round_robin_many".into(), PSpec::Stride { c: 0, a: 1, b: 1, k, len: n })
+        }
+        _ => {
+            let k = (*r.pick(&[65usize, 1025, 1500])).min(n.max(1));
+            let b = r.range(2, 5) as usize;
+            ("blocks_many".into(), PSpec::Stride { c: r.below(k as u64) as usize, a: 1, b, k, len: n })
+        }
+    }
+}
+
 /// partitions that cut edges at and around the boundary rows
 fn big_partition(r: &mut Rng, n: usize, k: usize) -> (String, Vec<usize>) {
     let bs: Vec<usize> = BOUNDARIES.iter().cloned().filter(|b| *b < n).collect();
@@ -808,12 +868,83 @@ fn json_rle(xs: &[i64]) -> String {
 /// One large case; returns (coq term, json, key, family).
 fn big_case(r: &mut Rng, threads: usize, panics: &mut usize, hangs: &mut usize) -> (String, String, String, String) {
     let k = if r.chance(2, 3) { r.range(2, 6) as usize } else { *r.pick(&WORD_IDS) + 1 };
-    match r.below(8) {
+    match r.below(10) {
+        8 | 9 => {
+            // MANY parts (at and beyond 1024) for compute_parts_load / imbalance / max_imbalance /
+            // imbalance_target: every part is met in at least two distant places of the array,
+            // i.e. by different rayon tasks, whatever the pool size.
+            let k = *r.pick(&[1024usize, 1025, 1500, 2048, 3000, 4097]);
+            let threads = *r.pick(&[1usize, 2, 3, 8]);
+            let len = k * r.range(2, 4) as usize + r.below(6) as usize;
+            let (pfam, spec) = match r.below(4) {
+                0 => ("round_robin", PSpec::Stride { c: r.below(k as u64) as usize, a: 1, b: 1, k, len }),
+                1 => {
+                    // a stride sharing a factor with k leaves parts empty
+                    let a = *r.pick(&[2usize, 3, 4, 5, 7, 64]);
+                    ("stride", PSpec::Stride { c: r.below(k as u64) as usize, a, b: 1, k, len })
+                }
+                2 => ("block_wise", PSpec::Stride { c: 0, a: 1, b: r.range(2, 3) as usize, k, len }),
+                _ => {
+                    // random runs over a pool of 60 part ids (most parts empty, pool parts recur)
+                    let pool: Vec<usize> = (0..60)
+                        .map(|i| match i {
+                            0 => 0,
+                            1 => k - 1,
+                            2 => 1023.min(k - 1),
+                            3 => 1024.min(k - 1),
+                            _ => r.below(k as u64) as usize,
+                        })
+                        .collect();
+                    let mut runs = Vec::new();
+                    let mut left = len;
+                    while left > 0 {
+                        let c = (r.range(1, (len / 150).max(2) as i64) as usize).min(left);
+                        runs.push((*r.pick(&pool), c));
+                        left -= c;
+                    }
+                    ("random_runs", PSpec::Runs(runs))
+                }
+            };
+            let p = spec.expand();
+            let (name, ws): (&str, Vec<i64>) = match r.below(4) {
+                0 => ("many_parts_load_ones", vec![1; len]),
+                1 => ("many_parts_load_mod7", (0..len).map(|v| 1 + (v % 7) as i64).collect()),
+                2 => ("many_parts_load_random", (0..len).map(|_| r.range(0, 1000)).collect()),
+                _ => ("many_parts_load_sparse", (0..len).map(|v| if v % 97 == 0 { r.range(1, 1 << 30) } else { 0 }).collect()),
+            };
+            let targets: Vec<i64> = (0..k).map(|_| r.range(0, 50)).collect();
+            let (p2, ws2, t2) = (p.clone(), ws.clone(), targets.clone());
+            let res = guarded(threads, Duration::from_secs(120), move || run_load(k, &p2, &ws2, &t2));
+            let (coq_o, json_o) = coq_load_obs(&res, panics, hangs);
+            let depth = (usize::BITS - threads.leading_zeros()) as usize;
+            let coq = format!(
+                "CManyLoad {} {}%N {} {} {} {}",
+                depth,
+                k,
+                spec.coq(),
+                coq_zlist(ws.iter().map(|x| *x as i128)),
+                coq_zlist(targets.iter().map(|x| *x as i128)),
+                coq_o
+            );
+            // the JSON keeps the inputs compact and the outputs summarised
+            let json = format!(
+                "{{\"kind\":\"many_parts_load\",\"num_parts\":{},\"len\":{},\"threads\":{},\"partition_family\":\"{}\",\"partition\":{},\"weights_rle\":{},\"targets_rle\":{},\"impl\":{}}}",
+                k, len, threads, pfam, spec.json(), json_rle(&ws), json_rle(&targets), json_load_summary(&res)
+            );
+            let key = format!("ml|{}|{}|{}|{}|{:?}", name, k, len, pfam, &ws[..ws.len().min(40)]);
+            (coq, json, key, name.to_string())
+        }
         0..=3 => {
             let n = big_n(r);
             let (fam, rows) = big_rows(r, n);
             let n = rows.len();
-            let (pfam, p) = big_partition(r, n, k);
+            let (pfam, spec) = if r.chance(1, 4) {
+                big_partition_many(r, n)
+            } else {
+                let (f, p) = big_partition(r, n, k);
+                (f, PSpec::List(p))
+            };
+            let p = spec.expand();
             let vw = big_vweights(r, n);
             let (rows2, p2, vw2) = (rows.clone(), p.clone(), vw.clone());
             let res = guarded(threads, Duration::from_secs(120), move || run_graph(&rows2, 0, &p2, &vw2));
@@ -821,14 +952,13 @@ fn big_case(r: &mut Rng, threads: usize, panics: &mut usize, hangs: &mut usize) 
             let coq = format!(
                 "CBigGraph {} {} {} {}",
                 coq_offset_rows(&rows),
-                coq_natlist(p.iter().cloned()),
+                spec.coq(),
                 coq_zlist(vw.iter().map(|x| *x as i128)),
                 coq_o
             );
-            let pz: Vec<i64> = p.iter().map(|x| *x as i64).collect();
             let json = format!(
-                "{{\"kind\":\"big_graph\",\"family\":\"{}\",\"n\":{},\"entries\":{},\"threads\":{},\"partition_family\":\"{}\",\"partition_rle\":{},\"impl\":{},\"note\":\"rows are regenerated from the seed: rerun with --only <index>\"}}",
-                fam, n, rows.iter().map(|x| x.len()).sum::<usize>(), threads, pfam, json_rle(&pz), json_o
+                "{{\"kind\":\"big_graph\",\"family\":\"{}\",\"n\":{},\"entries\":{},\"threads\":{},\"partition_family\":\"{}\",\"partition\":{},\"impl\":{},\"note\":\"rows are regenerated from the seed: rerun with --only <index>\"}}",
+                fam, n, rows.iter().map(|x| x.len()).sum::<usize>(), threads, pfam, spec.json(), json_o
             );
             let key = format!("bg|{}|{}|{}|{:?}", fam, n, pfam, &p[..p.len().min(40)]);
             (coq, json, key, fam)
@@ -843,7 +973,13 @@ fn big_case(r: &mut Rng, threads: usize, panics: &mut usize, hangs: &mut usize) 
             };
             let n: usize = dims.iter().product();
             let lat = lattice_rows_fast(&dims);
-            let (pfam, p) = big_partition(r, n, k);
+            let (pfam, spec) = if r.chance(1, 4) {
+                big_partition_many(r, n)
+            } else {
+                let (f, p) = big_partition(r, n, k);
+                (f, PSpec::List(p))
+            };
+            let p = spec.expand();
             let vw = big_vweights(r, n);
             let (d2, l2, p2, vw2) = (dims.clone(), lat.clone(), p.clone(), vw.clone());
             let res = guarded(threads, Duration::from_secs(120), move || run_grid(&d2, &l2, &p2, &vw2));
@@ -900,14 +1036,13 @@ fn big_case(r: &mut Rng, threads: usize, panics: &mut usize, hangs: &mut usize) 
                 "CBigGrid {} {} {} {} {}",
                 coq_natlist(dims.iter().cloned()),
                 coq_offset_rows(&lat),
-                coq_natlist(p.iter().cloned()),
+                spec.coq(),
                 coq_zlist(vw.iter().map(|x| *x as i128)),
                 coq_o
             );
-            let pz: Vec<i64> = p.iter().map(|x| *x as i64).collect();
             let json = format!(
-                "{{\"kind\":\"big_grid\",\"dims\":{},\"threads\":{},\"partition_family\":\"{}\",\"partition_rle\":{},\"impl\":{}}}",
-                json_usizes(&dims), threads, pfam, json_rle(&pz), json_o
+                "{{\"kind\":\"big_grid\",\"dims\":{},\"threads\":{},\"partition_family\":\"{}\",\"partition\":{},\"impl\":{}}}",
+                json_usizes(&dims), threads, pfam, spec.json(), json_o
             );
             let key = format!("br|{:?}|{}|{:?}", dims, pfam, &p[..p.len().min(40)]);
             (coq, json, key, format!("big_grid{}d", dims.len()))
@@ -945,6 +1080,29 @@ fn big_case(r: &mut Rng, threads: usize, panics: &mut usize, hangs: &mut usize) 
             let key = format!("bl|{}|{}|{}|{}|{:?}", name, n, k, pfam, &ws[..ws.len().min(40)]);
             (coq, json, key, name.to_string())
         }
+    }
+}
+
+fn json_load_summary(res: &Guarded<LoadObs>) -> String {
+    match res {
+        Guarded::Done(o) => format!(
+            "{{\"loads_rle\":{},\"loads_f64_equal_i64\":{},\"imbalance\":{},\"imbalance_f64w\":{},\"max_imbalance\":{},\"max_imbalance_f64\":{},\"imbalance_target\":{}}}",
+            match &o.loads {
+                Some(l) => json_rle(l),
+                None => "\"panic\"".to_string(),
+            },
+            match (&o.loads, &o.loads_f) {
+                (Some(a), Some(b)) => (a.len() == b.len() && a.iter().zip(b).all(|(x, y)| *x as f64 == *y)).to_string(),
+                _ => "\"panic\"".to_string(),
+            },
+            json_opt(&Some(o.imb)),
+            json_opt(&Some(o.imb_f)),
+            json_opt(&Some(o.max)),
+            json_opt(&Some(o.max_f)),
+            json_opt(&Some(o.target))
+        ),
+        Guarded::Panic(m) => format!("{{\"panic\":{}}}", json_str(m)),
+        Guarded::Hang => "{\"hang\":true}".to_string(),
     }
 }
 
